@@ -52,7 +52,19 @@ struct FwdMonitor : Observer {
     int n = visits[b]++;
     return n == 0 ? 2 : n < 4 ? 1 : 0;
   }
+  // domains with plain int64 DBM weights document that arithmetic on huge magnitudes may overflow:
+  // an execution that leaves the range is cut (out of model), like any other cut of DESIGN 3.4
+  bool out_of_range(const CState &s) const {
+    if (!dom.int64_weights) return false;
+    for (int v : vars)
+      if (s.v[v] > ((i128)1 << 40) || s.v[v] < -((i128)1 << 40)) return true;
+    return false;
+  }
   bool admit(int f, int b, const CState &s) override {
+    if (out_of_range(s)) {
+      ctx.count("int64_range_cuts");
+      return false;
+    }
     if (!assumptions) return true;
     auto it = assumptions->find(b);
     return it == assumptions->end() || sat_all(it->second, s);
@@ -76,6 +88,7 @@ struct FwdMonitor : Observer {
   }
   void leave_block(int f, int b, const CState &s) override {
     if (stop) return;
+    if (out_of_range(s)) return; // the next admit() ends this execution
     prev_block = b;
     std::string why;
     GItem g = G.member(inv(post, b, false), s, vars, level_for(visits_post, b), why);
@@ -131,6 +144,9 @@ struct FwdMonitor : Observer {
     if (ok) reached_true[id]++;
     else reached_false[id]++;
     if (stop || call_depth_guard) return;
+    if (ex)
+      for (int j = 0; j < i && (size_t)j < ex->block_trace.size(); ++j)
+        if (out_of_range(ex->block_trace[j])) return;
     // the state reaching an assertion must be inside the abstract state the checker sees there
     const Func &fn = p.funcs[0];
     const std::vector<z_abs_t> &ss = states_of(b);
